@@ -207,10 +207,18 @@ class Run:
                 v = self.routines[st[1]].next()
                 self.ev('next', who, st[1], v if isinstance(
                     v, (int, float, str, type(None))) else repr(v))
-            elif op == 'tempo':
-                self.clocks[st[1]].tempo = st[2]
-            elif op == 'beats':
-                self.clocks[st[1]].beats = st[2]
+            elif op in ('tempo', 'beats'):
+                # logical instant of the change: a routine's own time, the
+                # physical present for calls from plain threads
+                if who in self.routines:
+                    lt = main.current_tt._m_seconds
+                else:
+                    lt = self.now()
+                self.ev('tempo-set', who, op, st[1], st[2], self.now(), lt)
+                if op == 'tempo':
+                    self.clocks[st[1]].tempo = st[2]
+                else:
+                    self.clocks[st[1]].beats = st[2]
             elif op == 'set':
                 self.conds[st[1]].test = st[2]
             elif op == 'signal':
